@@ -73,7 +73,7 @@ type c27Case struct {
 var (
 	c27EvTypes    = []string{"member-join", "member-leave", "member-failed", "member-update", "member-reap", "user", "query"}
 	c27SerfTypes  = []serf.EventType{serf.EventMemberJoin, serf.EventMemberLeave, serf.EventMemberFailed, serf.EventMemberUpdate, serf.EventMemberReap}
-	c27NamePool   = []string{"deploy", "load", "dep", "Deploy", "a.b", "user", "query"}
+	c27NamePool   = []string{"deploy", "load", "dep", "Deploy", "a.b", "user", "query", "deploy:prod", "a:b:c", "deploy:"}
 	c27Nasty      = []rune("ab \t\n=,é日-_.:Z9\\")
 	c27TagRunes   = []rune("roleabAZ09_-.:= é\t")
 	c27Addrs      = []string{"10.0.0.1", "192.168.1.20", "::1", "fe80::1", ""}
